@@ -439,6 +439,50 @@ func (i *instantiator) suffix(args []boundParam) string {
 	return sb.String()
 }
 
+// updateInstanceArgRefs re-targets the symbols behind semantic action arguments of one production
+// rule (or list element) to the template instances its references now point to. Every instance
+// gets its own copy of CmdArgs, since different instances of one template refer to different
+// nonterminals.
+func updateInstanceArgRefs(rule *Expr) {
+	refs := make(map[int]int) // position -> symbol
+	var cmds []*Expr
+	var visit func(e *Expr)
+	visit = func(e *Expr) {
+		switch e.Kind {
+		case Reference:
+			if e.Pos > 0 {
+				refs[e.Pos] = e.Symbol
+			}
+		case Command:
+			cmds = append(cmds, e)
+		case List:
+			// Note: list elements have their own numbering of positions.
+			for _, sub := range e.Sub {
+				updateInstanceArgRefs(sub)
+			}
+			return
+		}
+		for _, sub := range e.Sub {
+			visit(sub)
+		}
+	}
+	visit(rule)
+	for _, cmd := range cmds {
+		if cmd.CmdArgs == nil || cmd.CmdArgs.ArgRefs == nil {
+			continue
+		}
+		args := *cmd.CmdArgs
+		args.ArgRefs = make(map[int]ArgRef, len(cmd.CmdArgs.ArgRefs))
+		for pos, ref := range cmd.CmdArgs.ArgRefs {
+			if sym, ok := refs[pos]; ok {
+				ref.Symbol = sym
+			}
+			args.ArgRefs[pos] = ref
+		}
+		cmd.CmdArgs = &args
+	}
+}
+
 func newInstantiator(m, out *Model) *instantiator {
 	ret := &instantiator{m: m, out: out, boundMap: make(map[boundParam]int)}
 	ret.instanceMap = container.NewIntSliceMap(ret.allocate)
@@ -472,6 +516,13 @@ func Instantiate(m *Model) error {
 		curr := inst.instances[i]
 		curr.val = inst.doExpr(curr, m.Nonterms[curr.nonterm].Value)
 		curr.suffix = inst.suffix(curr.args)
+		if curr.val.Kind == Choice {
+			for _, rule := range curr.val.Sub {
+				updateInstanceArgRefs(rule)
+			}
+		} else {
+			updateInstanceArgRefs(curr.val)
+		}
 	}
 
 	// Sort the instances and move them over into the grammar.
